@@ -25,3 +25,16 @@ add("C09", "model_checking", "explicit-state exploration of all connect() creati
     "so order-independence is decided for every permutation inside the bound.",
     "Reference simulator vf/refsim.py mirrors the documented staggering/secant scheme (DESIGN §5 S1,S2); histories beyond depth 3 and other endpoints are not explored.",
     "DESIGN.md §7 C09")
+
+add("C06", "model_checking", "explicit-state exploration of all integrate-call histories up to depth 2-3 plus exhaustive enumeration of checkpoint_lengths tuples and execution modes, all on the real integrate",
+    "Histories of integrate calls over a 7-call alphabet are replayed from scratch on real modules; after every call the canonical module snapshot must be "
+    "unchanged and the result bit-identical to the same call on a fresh module. All checkpoint_lengths tuples of a bounded family and jit/vmap modes are "
+    "compared with the plain eager run.",
+    "Determinism of eager CPU execution is assumed (one XLA thread per worker). Runs are 1-5 steps; tuples beyond depth 3 / entries >4 are not explored.",
+    "DESIGN.md §7 C06")
+
+add("C07", "model_checking", "exhaustive enumeration of all compositions (split histories) of an n-step run executed as chains of real integrate calls, compared with the one-shot run and a manual stepper",
+    "Every composition of n=4 (5) steps into parts, for every model x scheme x backend and three checkpoint variants per segment, is executed through "
+    "return_states/all_states on the real integrate; recordings and returned states are compared with the one-shot run and with init_fn/step_fn stepping.",
+    "1e-10 tolerance (observed agreement is bit-for-bit); runs of 4-5 steps with data-fed stimulus and clamp; F6 (prod(checkpoint_lengths) > steps) is a listed known finding.",
+    "DESIGN.md §7 C07")
